@@ -1,3 +1,29 @@
-from simlab.profiles.chainprof import make_module_api
+"""C13: non-disturbance monitor over algebra sessions (even runs) and evolution / thermal sessions (odd runs)."""
+from simlab import session
+from simlab.profiles.chainprof import ChainProfile
+from simlab.profiles.evoprof import EvoProfile, W_C09, W_C10
+
 ID = "C13"
-generate_and_run, replay = make_module_api("C13")
+_A = ChainProfile("C13")
+_W = dict(W_C10)
+_W.update(evolve=5.0, evolve_imag=4.0, alias_mutate=1.0, drop=0.8, spill=0.6, observe=1.0, truncate=0.5, add=1.0, apply=1.0)
+_B = EvoProfile("C13", _W)
+
+
+def _prof(header):
+    return _B if header.get("family") == "evo" else _A
+
+
+def generate_and_run(seed, index, tier):
+    prof = _B if index % 2 else _A
+    import random
+    rnd = random.Random(seed)
+    header = prof.gen_header(rnd, tier)
+    header["tier"] = tier
+    header["family"] = "evo" if index % 2 else "algebra"
+    return session._run(prof, header, None, rnd, prof.nsteps(rnd, tier), tier)
+
+
+def replay(plan):
+    prof = _prof(plan["header"])
+    return session.replay(prof, plan)
